@@ -184,19 +184,24 @@ def ta_correspondence(chk, traces, shards=16, scripts=None, guards=False):
                 guard_fail[n] = [(int(a), int(b)) for a, b in pairs]
     # The order of allocations inside one Synchronize / configuration update is reconstructed from the instrumented
     # call trace. Where that reconstruction makes a capacity test of the model fail, the history is replayed once more
-    # with shared-only grants first: a sequence the implementation completed in SOME order is reproduced by that one.
+    # in the other orders (variants 3, 2, 1 of ta_corr.trace_terms): a sequence the implementation completed in SOME
+    # order is reproduced by one of them; it is reported only if every variant is refused.
     retry = [n for n, it in bad if 'ErrNoCapacity' in it or 'ErrGuard 13' in it]
-    if retry:
-        p2 = os.path.join(chk.work, 'cases_ta_retry.v')
-        ta_corr.case_file(p2, [(n, traces[n]) for n in retry], cfgs, False, permissive=True)
+    stats['order_retries'] = len(retry)
+    for variant in (3, 2, 1):
+        # second opinions on the order of reinstatement / allocation inside one request (see ta_corr.trace_terms)
+        if not retry:
+            break
+        p2 = os.path.join(chk.work, 'cases_ta_retry%d.v' % variant)
+        ta_corr.case_file(p2, [(n, traces[n]) for n in retry], cfgs, False, permissive=variant)
         (rc2, out2), = coq_eval_many([p2], timeout=600)
         body2 = parse_coq_print(out2, 'M')
         if rc2 == 0 and body2 is not None:
             items2 = split_top(body2.strip()[1:-1])
             ok2 = {n for n, it in zip(retry, items2) if it.strip() == 'None'}
-            stats['order_retries'] = len(retry)
-            stats['order_retries_ok'] = len(ok2)
+            stats['order_retries_ok'] = stats.get('order_retries_ok', 0) + len(ok2)
             bad = [(n, it) for n, it in bad if n not in ok2]
+            retry = [n for n in retry if n not in ok2]
     for n, it in bad:
         sc = (byname.get(n) if scripts else None)
         chk.corr_broken('TA_Model:' + n, 'model and implementation differ on history %s: %s (segment, MStep/MPool/MGrant event-group index ...)' % (n, it),
@@ -234,16 +239,19 @@ def pins_correspondence(chk, traces, scripts, shards=8):
             continue
         its = list(zip(grp, split_top(body.strip()[1:-1])))
         failing = [n for n, it in its if it.strip() != 'None']
-        if failing:
-            # same second opinion as for TA_Model: the other reinstatement / allocation order
-            p2 = p[:-2] + '_retry.v'
-            ta_corr.pins_case_file(p2, [(n, traces[n]) for n in failing], cfgs, permissive=True)
+        for variant in (3, 2, 1):
+            # same second opinions as for TA_Model: the other reinstatement / allocation orders
+            if not failing:
+                break
+            p2 = p[:-2] + '_retry%d.v' % variant
+            ta_corr.pins_case_file(p2, [(n, traces[n]) for n in failing], cfgs, permissive=variant)
             (rc2, out2), = coq_eval_many([p2], timeout=600)
             body2 = parse_coq_print(out2, 'M')
             if rc2 == 0 and body2 is not None:
                 ok2 = {n for n, it in zip(failing, split_top(body2.strip()[1:-1])) if it.strip() == 'None'}
                 stats['order_retries_ok'] += len(ok2)
                 its = [(n, it) for n, it in its if n not in ok2]
+                failing = [n for n in failing if n not in ok2]
         for n, it in its:
             if it.strip() != 'None':
                 sc = byname.get(n)
